@@ -88,6 +88,12 @@ func famConcurrent(sc *scn.Scenario, em func(vt.Ev)) {
 			return (first - 1) % native
 		case "samefallback":
 			return native + (first-1)%(len(basket)-native)
+		case "distfallback":
+			// the last four queries of the basket and some native ones
+			if client%3 == 2 {
+				return (first - 1 + client) % native
+			}
+			return len(basket) - 4 + (first-1+client)%4
 		case "basket", "dist", "cancelrace":
 			return (first - 1 + client) % native
 		default: // fallback: native and fallback mixed
@@ -98,7 +104,7 @@ func famConcurrent(sc *scn.Scenario, em func(vt.Ev)) {
 	store := vstore.New(series)
 	var eng run.QueryEngine
 	soloEngine := func() run.QueryEngine { return engine.New(run.EngineOpts(sc, "default", false, nil)) }
-	if mix == "dist" {
+	if mix == "dist" || mix == "distfallback" {
 		var remotes []api.RemoteEngine
 		for e := 0; e < 2; e++ {
 			var part []vstore.Series
